@@ -1760,3 +1760,6 @@ M('C18', 'wavelet adjoint scaled by the transformed cell sides only', 'odl/trafo
 M('C18', 'inverse wavelet adjoint unscaled', 'odl/trafos/wavelet.py',
   "            scale = self.range.partition.cell_volume\n            return scale * self.inverse",
   "            return 1.0 * self.inverse", 'WaveletTransformInverse.adjoint')
+MA('C11', 'proj_l1 takes the sign after the simplex projection wrote out',
+   'odl/solvers/nonsmooth/proximal_operators.py', 'proj_l1',
+   'out *= v', 'out *= x.ufuncs.sign()', 'R5')
